@@ -92,6 +92,16 @@ def step (s : St) (toks : List String) : IO (St × Bool) := do
     match o.toNat? with
     | none => IO.println "bad-op"; return (s, false)
     | some o => doOp s (.ins (o, s.next) s.next) true
+  | ["insf", o] =>                 -- insert while the allocator fails: a new key is not added (identity step), an equal key is replaced
+    match o.toNat? with
+    | none => IO.println "bad-op"; return (s, false)
+    | some o =>
+      match s.t.step (.get (o, 0)), s.t.step .count with
+      | some (_, .got none), some (_, .num n) =>
+        IO.println s!"n={n} d=[]"
+        return ({ s with next := s.next + 1 }, false)
+      | some (_, .got (some _)), _ => doOp s (.ins (o, s.next) s.next) true
+      | _, _ => IO.println "fault"; return (s, true)
   | ["insv", o] =>                 -- NULL value
     match o.toNat? with
     | none => IO.println "bad-op"; return (s, false)
